@@ -48,7 +48,8 @@ def floors(tier):
                          "config_multi_field_sets_checked": n["roundtrip"] * 3,
                          "unknown_names_refused": n["roundtrip"],
                          "fits_run": n["fit"], "fits_returned_and_checked": max(1, n["fit"] // 4),
-                         "fits_with_extra_validation": max(1, n["fit"] // 6)}}
+                         "fits_with_extra_validation": max(1, n["fit"] // 6),
+                         "fits_with_unsorted_unequal_sensors": max(1, n["fit"] // 6)}}
 
 
 def setup_worker(ctx):
@@ -205,6 +206,18 @@ def _fit(R, rng, ctx, i=0):
         defn = constant_velocity_defn(rng)
         extra = True
         R.stats.inc("fits_with_extra_validation")
+    if i % 4 == 2:
+        # several sensors with different numbers of readings, declared in an order that is not the sorted
+        # key order (sensor models and noise maps independently): the flattened noise vector has to be
+        # split by name, not by position
+        for _ in range(40):
+            defn = gen.contractive_program(rng, n_state=(2, 3), n_control=(1, 2), n_calib=(0, 1), n_sensor=(2, 3),
+                                           n_reading=(1, 3), depth=1, n_shared=(0, 1), allow_text=False)
+            keys = list(defn["sensor_noises"])
+            sizes = [len(defn["sensor_noises"][k]) for k in keys]
+            if keys != sorted(keys) and sizes != [len(defn["sensor_noises"][k]) for k in sorted(keys)]:
+                break
+        R.stats.inc("fits_with_unsorted_unequal_sensors")
     b = build.Built(defn)
     cfg = python.Config(common_subexpression_elimination=False, extra_validation=extra,
                         innovation_filtering=rng.choice([None, 5.0]), max_dt_sec=rng.choice([0.1, 0.5]))
